@@ -45,7 +45,7 @@ class ReqWorld(World):
     name = "W-req"
 
     def __init__(self, dispatcher: bool = False, controller: bool = True, pairs: bool = True, fleets=(),
-                 requests=("r0", "r1", "r2"), cancel: int = 180, low: bool = True, name: str = ""):
+                 requests=("r0", "r1", "r2"), cancel: int = 180, low: bool = True, name: str = "", dispatch_states=None):
         super().__init__()
         self.pairs = pairs
         if name:
@@ -54,7 +54,10 @@ class ReqWorld(World):
             self.name = "W-req+dispatcher" if controller else "W-req/dispatcher-only"
         S = sites()
         self.S = S
-        cfg = make_config(step=60, cancel=cancel, idle_timeout=100000, dispatcher={"matching_range_km_threshold": 0.0})
+        dconf = {"matching_range_km_threshold": 0.0}
+        if dispatch_states:
+            dconf["valid_dispatch_states"] = list(dispatch_states)  # e.g. also "dispatchtrip": vehicles en route may be re-matched
+        cfg = make_config(step=60, cancel=cancel, idle_timeout=100000, dispatcher=dconf)
         self.env = make_env(cfg, fleets=fleets)
         env = self.env
         rn = HaversineRoadNetwork(sim_h3_resolution=15)
@@ -71,7 +74,12 @@ class ReqWorld(World):
             "r0": {"origin": S["M1"], "destination": S["N2"]},
             "r1": {"origin": S["A"], "destination": S["M2"]},
             "r2": {"origin": S["N1"], "destination": S["N1"]},
+            # for the re-match configuration: a trip that ends next to another request's origin
+            "r3": {"origin": S["N1"], "destination": S["M1"]},
+            "r5": {"origin": S["M2"], "destination": S["N2"]},
+            "r6": {"origin": S["F2"], "destination": S["N2"]},
         }
+        requests = tuple(requests)
         self.request_specs = {k: dict(v, fleet_id=(fleets[0] if fleets else None)) for k, v in specs.items() if k in requests}
         self.rate_structure = RequestRateStructure(base_price=1.37, price_per_mile=0.73, minimum_price=0.5)
         self.builtin_generators = (Dispatcher(cfg.dispatcher),) if dispatcher else ()
